@@ -74,6 +74,7 @@ type replayer struct {
 	drifted bool
 	logging int32
 	isDo    map[string]bool // callers that use Client.Do
+	isInd   map[string]bool // callers that use Client.Indicate
 	waiting map[string]bool // Do callers seen blocked in callbackWaitHandler.wait
 	hdone   map[string]bool // callers whose handler has returned (guarded by c.mu)
 }
@@ -160,6 +161,9 @@ func (r *replayer) pcOf(a *gateArr) string {
 	m, ok := gateToPC[a.name]
 	if !ok {
 		return a.name
+	}
+	if a.name == "conn.Write" && r.isInd[a.proc] {
+		return "I_write"
 	}
 	d := r.depth[a.proc]
 	if a.name == "cb.exit" {
@@ -368,7 +372,7 @@ func (r *replayer) looseStep(st cliStep) {
 		var resp gateResp
 		switch a.name {
 		case "conn.Write":
-			resp.fail = (st.From == "S_write" || st.From == "R_write") && !st.Wok
+			resp.fail = (st.From == "S_write" || st.From == "R_write" || st.From == "I_write") && !st.Wok
 		case "conn.Read":
 			if !r.c.hasInbox {
 				return // nothing to read: the reader stays where it is
@@ -439,9 +443,12 @@ func (r *replayer) spawnStart(p string, refusedVariant int) {
 		r.c.mu.Unlock()
 	}
 	useDo := refusedVariant == 1 || r.isDo[p]
+	if r.isInd[p] {
+		useDo, refusedVariant = false, 2
+	}
 	go func() {
 		r.c.register(p)
-		r.emit(map[string]interface{}{"k": "start_call", "s": idx, "id": idx, "raw": ints(snapshot), "t": r.c.now(), "do": useDo})
+		r.emit(map[string]interface{}{"k": "start_call", "s": idx, "id": idx, "raw": ints(snapshot), "t": r.c.now(), "do": useDo, "ind": refusedVariant == 2})
 		var err error
 		switch {
 		case useDo: // (refusedVariant 1: the model says this call is refused at once; Do and Indicate must be refused alike)
@@ -487,7 +494,7 @@ func (r *replayer) spawnClose() {
 
 func runSchedule(tw *traceWriter, sch cliSchedule) {
 	r := &replayer{depth: map[string]int{}, done: map[string]bool{}, started: map[string]bool{}, sch: sch, logging: 1,
-		isDo: map[string]bool{}, waiting: map[string]bool{}, hdone: map[string]bool{}}
+		isDo: map[string]bool{}, waiting: map[string]bool{}, hdone: map[string]bool{}, isInd: map[string]bool{}}
 	// which callers are Client.Do: those the model sends through D_wait; a caller whose Start is not seen returning
 	// nil in this behaviour (refused, failed or cut short) uses Do in every other schedule
 	for _, p := range []string{"s1", "s2"} {
@@ -499,6 +506,11 @@ func runSchedule(tw *traceWriter, sch cliSchedule) {
 			}
 		}
 		r.isDo[p] = viaWait || (!plainNil && sch.Tr%2 == 1)
+		for _, st := range sch.Steps {
+			if st.P == p && st.From == "idle" && st.To == "I_write" {
+				r.isInd[p], r.isDo[p] = true, false
+			}
+		}
 	}
 	r.emit = func(m map[string]interface{}) {
 		if atomic.LoadInt32(&r.logging) == 0 {
@@ -638,7 +650,7 @@ func runSchedule(tw *traceWriter, sch cliSchedule) {
 		default:
 			var resp gateResp
 			switch st.From {
-			case "S_write", "R_write":
+			case "S_write", "R_write", "I_write":
 				resp.fail = !st.Wok
 			case "RD_read":
 				if st.To == "RD_done" {
